@@ -63,6 +63,12 @@ ASSUMPTIONS = ["PD pools: delegated bits small enough to build the free list",
 
 M32 = 0xffff00000000
 
+# session tokens: 1-4 ordinary ("s1".."s4"); 5 "S1", 6 "s11", 7 "" (empty), 8 "s" - names that differ from another one only in
+# case, as prefix / extension, or by being empty (the harness maps tokens to names; the model compares tokens)
+SIDS = [1, 2, 3, 4, 1, 2, 3, 4, 5, 6, 7, 8]
+# VRF tokens: 0 none, 1 "v1", 2 "v2", 3 "V1", 4 "v11";  profile 7 "P1", pool 7 "N1"
+VRFS = [0, 0, 1, 1, 2, 3, 4]
+
 
 def atok(fam, n):
     return "%d:%d" % (fam, min(max(n, 0), 0xffffffff if fam == 4 else (1 << 128) - 1))
@@ -132,7 +138,7 @@ def gen_pool(rng, drain=None, maxops=60):
     recent = []
     for _ in range(rng.randint(3, maxops)):
         k = rng.random()
-        s = rng.randint(1, 4)
+        s = rng.choice(SIDS)
         if k < 0.33:
             ops.append("A%d" % s)
         elif k < 0.53:
@@ -152,7 +158,7 @@ def gen_pool(rng, drain=None, maxops=60):
         drain = rng.random() < 0.67
     if drain:
         ops.append("V")
-        ops += ["A%d" % rng.randint(1, 4) for _ in range(size + 2)]
+        ops += ["A%d" % rng.choice(SIDS) for _ in range(size + 2)]
         ops.append("V")
     return "pool %s %s %d %s; %s" % (atok(fam, lo), atok(fam, hi), len(ex), "".join(e + " " for e in ex), " ".join(ops))
 
@@ -230,7 +236,7 @@ def gen_pd(rng, maxops=50):
     recent = []
     for _ in range(rng.randint(3, maxops)):
         k = rng.random()
-        s = rng.randint(1, 4)
+        s = rng.choice(SIDS)
         if k < 0.33:
             ops.append("A%d" % s)
         elif k < 0.53:
@@ -247,7 +253,7 @@ def gen_pd(rng, maxops=50):
             ops.append("C" + parg())
     if rng.random() < 0.67 and count <= 64:
         ops.append("V")
-        ops += ["A%d" % rng.randint(1, 4) for _ in range(count + 2)]
+        ops += ["A%d" % rng.choice(SIDS) for _ in range(count + 2)]
         ops.append("V")
     return "pd %d %d %d ; %s" % (net, nb, pl, " ".join(ops))
 
@@ -259,16 +265,27 @@ def gen_registry(rng, resolve=False, maxops=45):
     """One registry with IPv4, IA_NA and PD pool lists; pool names are drawn from a small set so that
     "profile/pool" keys collide across families.  resolve=True: pools of one family are pairwise
     disjoint (walks are then deterministic) and the ops are ResolveV4/ResolveV6 + exported API."""
-    profiles = rng.choice([[1], [1], [1, 2], [1, 2]])
+    profiles = rng.choice([[1], [1], [1, 2], [1, 2], [1, 7], [1, 10], [2, 12]])
     entries = []          # (pf, fam, pgw, [pool dict])
     keys = {"4": [], "n": [], "d": []}   # (key, first, last) / for d: (key, base, nbits, plen)
     slot = [0]
+    used4, used6 = set(), set()
+    HI4 = [0x0a000000, 0x0b000000, 0x0a010000, 0xac100000, 0xc0a80000, 0x0a000000]
+    HI6 = [0x20010db8 << 96, (0x20010db8 << 96) + (1 << 64), (0x20010db8 << 96) + (1 << 95), 0x20010db9 << 96, 0xfd00 << 112]
 
     def v4_pool(pf, j, name):
         bits = rng.choice([29, 30, 30, 28])
         if resolve or rng.random() < 0.7:
-            slot[0] += 1
-            basen = 0x0a000000 + (slot[0] << 5)
+            # pools differing in exactly one byte of the network: the same low bytes under another first / second octet
+            if rng.random() < 0.35 and slot[0]:
+                hi4 = rng.choice([h for h in HI4 if (h, slot[0]) not in used4] or [None])
+            else:
+                hi4 = None
+            if hi4 is None:
+                slot[0] += 1
+                hi4 = rng.choice(HI4)
+            used4.add((hi4, slot[0]))
+            basen = hi4 + (slot[0] << 5)
         else:
             basen = 0x0a000000
         first, last = basen, basen + (1 << (32 - bits)) - 1
@@ -286,14 +303,22 @@ def gen_registry(rng, resolve=False, maxops=45):
             a = rng.randint(first, last)
             ex += [atok(4, a), "-"] if rng.random() < 0.5 else [atok(4, a), atok(4, min(last + 1, a + rng.randint(0, 2)))]
         keys["4"].append(("%d/%d" % (pf, name), first, last))
-        return [str(name), str(rng.choice([-1, 0, 0, 1, 1, 2, 5, 10])), str(rng.choice([0, 0, 1, 1, 2])), net, lo, hi, gw,
+        return [str(name), str(rng.choice([-1, 0, 0, 1, 1, 2, 5, 10])), str(rng.choice(VRFS)), net, lo, hi, gw,
                 str(len(ex) // 2)] + ex
 
     def na_pool(pf, j, name):
         bits = rng.choice([125, 126, 126, 124])
         if resolve or rng.random() < 0.7:
-            slot[0] += 1
-            basen = (0x20010db8 << 96) + (slot[0] << 5)
+            # the same low 64 bits under another high word (and the other way round)
+            if rng.random() < 0.35 and slot[0]:
+                hi6 = rng.choice([h for h in HI6 if (h, slot[0]) not in used6] or [None])
+            else:
+                hi6 = None
+            if hi6 is None:
+                slot[0] += 1
+                hi6 = rng.choice(HI6)
+            used6.add((hi6, slot[0]))
+            basen = hi6 + (slot[0] << 5)
         else:
             basen = 0x20010db8 << 96
         first, last = basen, basen + (1 << (128 - bits)) - 1
@@ -305,7 +330,7 @@ def gen_registry(rng, resolve=False, maxops=45):
             lo, hi = atok(6, rl), atok(6, min(last, rl + rng.choice([0, 1, 2, 3])))
         gw = rng.choice(["-", "-", atok(6, rng.randint(first, last)), "junk"])
         keys["n"].append(("%d/%d" % (pf, name), first, last))
-        return [str(name), "0", str(rng.choice([0, 0, 1, 1, 2])), net, lo, hi, gw, "0"]
+        return [str(name), "0", str(rng.choice(VRFS)), net, lo, hi, gw, "0"]
 
     def pd_pool(pf, j, name):
         nb, pl = rng.choice(PD_REG_SHAPES)
@@ -320,16 +345,16 @@ def gen_registry(rng, resolve=False, maxops=45):
         odd = rng.random()
         if odd < 0.04:        # prefix length above the address length: no allocator since 1de6b72
             keys["d"].append(("%d/%d" % (pf, name), pd_base(net, 126), 126, 129))
-            return [str(name), "0", str(rng.choice([0, 0, 1, 1, 2])), "%s/%d" % (atok(6, net), rng.choice([126, 128])), str(rng.choice([129, 130, 190])), "-", "-", "0"]
+            return [str(name), "0", str(rng.choice(VRFS)), "%s/%d" % (atok(6, net), rng.choice([126, 128])), str(rng.choice([129, 130, 190])), "-", "-", "0"]
         if odd < 0.08:        # an IPv4 network for a PD pool
             v4n, v4b, v4p = rng.choice([(0x0a000000, 24, 26), (0x0a000000, 30, 32), (0x0a000000, 24, 33), (0xc0a80000, 16, 18)])
             keys["d"].append(("%d/%d" % (pf, name), M32 + v4n, 96 + v4b, 96 + v4p))
-            return [str(name), "0", str(rng.choice([0, 0, 1, 1, 2])), "%s/%d" % (atok(4, v4n), v4b), str(v4p), "-", "-", "0"]
+            return [str(name), "0", str(rng.choice(VRFS)), "%s/%d" % (atok(4, v4n), v4b), str(v4p), "-", "-", "0"]
         nets = "bad" if bad and rng.random() < 0.5 else "%s/%d" % (atok(6, net), nb)
         if bad and nets != "bad":
             pl = rng.choice([nb - 1 if nb else 200, nb + 64]) if nb + 64 <= 128 else max(nb - 1, 0)
         keys["d"].append(("%d/%d" % (pf, name), pd_base(net, nb), nb, pl))
-        return [str(name), "0", str(rng.choice([0, 0, 1, 1, 2])), nets, str(pl), "-", "-", "0"]
+        return [str(name), "0", str(rng.choice(VRFS)), nets, str(pl), "-", "-", "0"]
     makers = {"4": v4_pool, "n": na_pool, "d": pd_pool}
     for fam in ("4", "n", "d"):
         for pf in profiles:
@@ -338,7 +363,7 @@ def gen_registry(rng, resolve=False, maxops=45):
             nk = rng.choice([0, 1, 2, 2, 3, 3, 4]) if fam == "4" else rng.choice([0, 1, 1, 2, 2, 3])
             pools = []
             for j in range(nk):
-                name = rng.choice([1, 2, 3]) if rng.random() < 0.3 else j + 1
+                name = rng.choice([1, 2, 3, 7]) if rng.random() < 0.3 else j + 1
                 pools.append(makers[fam](pf, j, name))
             pgw = rng.choice(["-", "junk", atok(4, 0x0a000001)]) if fam == "4" else "-"
             entries.append((pf, fam, pgw, pools))
@@ -393,12 +418,12 @@ def gen_registry(rng, resolve=False, maxops=45):
         return "%d/%d" % (rng.randint(1, 3), rng.randint(1, 6))
 
     def alloc(fam, s=None):
-        return "A%s%d,%d,%d,%d" % (fam, s or rng.randint(1, 4), rng.choice(profiles + ([3] if rng.random() < 0.05 else [])),
-                                   rng.choice([0, 0, 0, 0, 1, 2, 3, 6]), rng.choice([0, 0, 1, 1, 2]))
+        return "A%s%d,%d,%d,%d" % (fam, s or rng.choice(SIDS), rng.choice(profiles + ([3] if rng.random() < 0.05 else [])),
+                                   rng.choice([0, 0, 0, 0, 1, 2, 3, 6, 7]), rng.choice(VRFS))
     ops = []
     for _ in range(rng.randint(3, maxops)):
         k = rng.random()
-        s = rng.randint(1, 4)
+        s = rng.choice(SIDS)
         fam = rng.choice(["4", "4", "n", "d", "d"])
         if resolve and rng.random() < 0.22:
             ops.append(rng.choice(["y%d", "y%d", "z%d", "z%d", "n%d", "m%d"]) % s)
@@ -422,7 +447,7 @@ def gen_registry(rng, resolve=False, maxops=45):
             name_attr = lambda: rng.choice(["-", "-", "-", "!", "junk", "1", "2", "3", "6", "0"])
             pfa = rng.choice(profiles + [0])
             if rng.random() < 0.5:
-                ops.append("X%d,%d,%d,%s,%s" % (s, pfa, rng.choice([0, 0, 1, 2]), addr_attr("4"), name_attr()))
+                ops.append("X%d,%d,%d,%s,%s" % (s, pfa, rng.choice(VRFS), addr_attr("4"), name_attr()))
             else:
                 pd = arg("d")
                 r = rng.random()
@@ -432,19 +457,19 @@ def gen_registry(rng, resolve=False, maxops=45):
                     pd = pd.split("/")[0] + "/" + pd.split("/")[1].split(":")[0]
                     if rng.random() < 0.15:
                         pd = "%s/%d" % (atok(4, 0x0a000000), 24)     # an IPv4 CIDR as ipv6_prefix
-                ops.append("W%d,%d,%d,%s,%s,%s,%s" % (s, pfa, rng.choice([0, 0, 1, 2]), addr_attr("n"), pd, name_attr(), name_attr()))
+                ops.append("W%d,%d,%d,%s,%s,%s,%s" % (s, pfa, rng.choice(VRFS), addr_attr("n"), pd, name_attr(), name_attr()))
             continue
         if resolve:
             if k < 0.25:
                 have = "-" if rng.random() < 0.6 or not keys["4"] else atok(4, rng.randint(*rng.choice(keys["4"])[1:]))
-                ops.append("Y%d,%d,%d,%d,%s" % (s, rng.choice(profiles), rng.choice([0, 0, 0, 1, 2, 6]), rng.choice([0, 0, 1, 2]), have))
+                ops.append("Y%d,%d,%d,%d,%s" % (s, rng.choice(profiles), rng.choice([0, 0, 0, 1, 2, 6]), rng.choice(VRFS), have))
             elif k < 0.55:
                 hna = "-" if rng.random() < 0.6 or not keys["n"] else atok(6, rng.randint(*rng.choice(keys["n"])[1:]))
                 hpd = "-" if rng.random() < 0.6 else arg("d")
                 if hpd in ("nil",) or hpd.startswith("bad"):
                     hpd = "-"
                 ops.append("Z%d,%d,%d,%d,%d,%s,%s" % (s, rng.choice(profiles), rng.choice([0, 0, 0, 1, 2]), rng.choice([0, 0, 0, 1, 2]),
-                                                      rng.choice([0, 0, 1, 2]), hna, hpd))
+                                                      rng.choice(VRFS), hna, hpd))
             elif k < 0.75:
                 ops.append(alloc(fam, s))
             elif k < 0.9:
@@ -470,11 +495,11 @@ def gen_registry(rng, resolve=False, maxops=45):
             ops.append("V%s%s" % (fam, karg(fam)))
         else:
             ops.append("O%s%d" % (fam, rng.choice(profiles)))
-    if rng.random() < 0.6:
+    if resolve or rng.random() < 0.6:     # res cases always end with drains: they have no other view of the free sets
         for fam in ("4", "n", "d"):
             for pf in profiles:
-                for vrf in (0, 1, 2):
-                    ops += ["A%s%d,%d,0,%d" % (fam, rng.randint(1, 4), pf, vrf)] * rng.randint(2, 6)
+                for vrf in (0, 1, 2, 3, 4):
+                    ops += ["A%s%d,%d,0,%d" % (fam, rng.choice(SIDS), pf, vrf)] * rng.randint(2, 6)
     return "%s %d %s ; %s" % ("res" if resolve else "reg", len(order), " ".join(toks), " ".join(ops))
 
 
